@@ -94,7 +94,7 @@ SOURCES = [
         must_fire={'A_LOAD': 1, 'method:alloc_hazard_era': 1, 'subst:assign_after_throw_check': 1, 'ctor_init': 2, 'subst:init_null': 1}),
   guard(id='g_ctor_copy', file=IMPL, sig=G + r'guard_ptr\(const guard_ptr& p\)', ctor=True, c_sig='static void g_ctor_copy(struct guard* self, struct guard* p_p)',
         extra_post=[P_REF], must_fire={'method:add_guard': 1, 'ctor_init': 2}),
-  guard(id='g_ctor_move', file=IMPL, sig=G + r'guard_ptr\(guard_ptr&& p\)', ctor=True, c_sig='static void g_ctor_move(struct guard* self, struct guard* p_p)',
+  guard(id='g_ctor_move', file=IMPL, sig=G + r'guard_ptr\(guard_ptr&& p\) noexcept', ctor=True, c_sig='static void g_ctor_move(struct guard* self, struct guard* p_p)',
         extra_post=[P_REF], must_fire={'method:reset': 1, 'ctor_init': 2}),
   guard(id='g_assign_copy', file=IMPL, sig=r'auto ' + G + r'operator=\(const guard_ptr& p\)', c_sig='static struct guard* g_assign_copy(struct guard* self, struct guard* p_p)',
         extra_post=[P_REF, (r'return \(\*self\);', 'return self;', 'ret_this')], must_fire={'self_call:reset': 1, 'method:add_guard': 1, 'subst:ret_this': 2}),
